@@ -16,7 +16,7 @@ impl SignedPacket { pub fn public_key(&self) -> PublicKey { self.key } }
 // shims: hickory proto
 #[derive(Debug, Clone, Eq)] pub struct Label(pub Vec<u8>);
 impl PartialEq for Label { fn eq(&self, o: &Self) -> bool { self.0.eq_ignore_ascii_case(&o.0) } }
-impl Label { pub fn from_utf8(s: &str) -> Result<Label, ProtoError> { if s.is_empty() || s.len() > 63 { Err(ProtoError) } else { Ok(Label(s.as_bytes().to_vec())) } } }
+impl Label { pub fn as_bytes(&self) -> &[u8] { &self.0 } pub fn from_utf8(s: &str) -> Result<Label, ProtoError> { if s.is_empty() || s.len() > 63 { Err(ProtoError) } else { Ok(Label(s.as_bytes().to_vec())) } } }
 pub trait IntoLabel { fn into_label(self) -> Result<Label, ProtoError>; }
 impl IntoLabel for &[u8] { fn into_label(self) -> Result<Label, ProtoError> { if self.is_empty() || self.len() > 63 { Err(ProtoError) } else { Ok(Label(self.to_vec())) } } }
 #[derive(Debug, Clone, PartialEq, Eq, PartialOrd, Ord)] pub struct Name { pub labels: Vec<Vec<u8>>, pub fqdn: bool }
